@@ -406,10 +406,13 @@ class Sim:
         for m in list(self.farm._cluster) + list(self.farm._cloud):  # pylint: disable=protected-access
             k = (m.jobid, m.target if m.target else '__all__')
             queued[k] = queued.get(k, 0) + 1
+        held = {j.tag: set(j.get('do')) for j in self.farm._jobs}  # pylint: disable=protected-access
         for r in self.releases:
             if r.state == 'released' and queued.get(r.key(), 0) > 0:
                 queued[r.key()] -= 1
                 r.state = 'queued'
+            # a job whose dispatch was interrupted waits in farm._jobs with its targets still in `do`
+            r.in_jobs = r.state == 'released' and r.target in held.get(r.tag, ())
 
     def ev_run(self, ev):
         self.api.cmd_run(list(ev['names']), list(ev['targets']))
@@ -421,7 +424,24 @@ class Sim:
     def ev_add_target(self, ev):
         self.db.add(ev['name'])
 
-    def ev_dispatch(self, _ev):
+    def ev_dispatch(self, ev):
+        if ev.get('fault') == 'db.next':
+            # the database refuses one run-id allocation during this tick (dispatch anticipates that)
+            orig = self.db.next
+            state = {'n': 0}
+
+            def failing_next():
+                state['n'] += 1
+                if state['n'] == 1:
+                    raise RuntimeError('db.next() failure injected by vf')
+                return orig()
+
+            self.db.next = failing_next
+            try:
+                self.farm.dispatch()
+            finally:
+                self.db.next = orig
+            return
         self.farm.dispatch()
 
     def ev_connect(self, ev):
@@ -684,6 +704,8 @@ class Driver:
                     ev['new'] = [rng.random() < 0.5 for _ in range(nvals)]
             return ev
         if op == 'dispatch':
+            if rng.random() < p.get('p_dbfault', 0.0):
+                return {'op': 'dispatch', 'fault': 'db.next'}
             return {'op': 'dispatch'}
         if op == 'connect':
             self.next_wid += 1
